@@ -18,6 +18,8 @@ func cmdBackground(p *lang.Process) (err error) {
 	if p.IsMethod {
 		b, err := p.Stdin.ReadAll()
 		if err != nil {
+			// `bg` is not released by destroyProcess (see the special case there)
+			p.WaitForTermination <- false
 			return err
 		}
 		block = []rune(string(b))
@@ -25,7 +27,10 @@ func cmdBackground(p *lang.Process) (err error) {
 	} else {
 		block, err = p.Parameters.Block(0)
 		if err != nil {
-			return mkbg(p)
+			err = mkbg(p)
+			// `bg` is not released by destroyProcess (see the special case there)
+			p.WaitForTermination <- false
+			return err
 		}
 	}
 
